@@ -119,10 +119,7 @@ theorem at_set (q : Q) (i k : Nat) (a : AckMsg) (hi : i < q.ring.length) :
 
 def toEntry (a : AckMsg) : Fifo.Entry := ⟨a.mtype, a.state, a.pktid, a.msgbuf, a.ackbuf, a.tag⟩
 
-def absPing (a : AckMsg) : Option Fifo.Entry :=
-  if a.mtype = tPINGREQ then some (toEntry a) else none
-
-def abs (q : Q) : Fifo.S := ⟨(window q).map toEntry, absPing q.ping⟩
+def abs (q : Q) : Fifo.S := ⟨(window q).map toEntry, q.pings.map toEntry⟩
 
 /-! ### the regenerated tables are the protocol's
 
@@ -147,7 +144,7 @@ abbrev terminal := Fifo.terminal
 /-! ### initial state -/
 
 theorem newAckqueue_default : newAckqueue defaultQueueSize =
-    { size := 16, mask := 15, count := 0, head := 0, tail := 0, ping := AckMsg.zero,
+    { size := 16, mask := 15, count := 0, head := 0, tail := 0, pings := [],
       ring := List.replicate 16 AckMsg.zero, emap := [] } := by
   decide
 
@@ -365,7 +362,7 @@ theorem grow_window {q : Q} (h : Inv q) (hfull : q.count = q.size) : window q.gr
   intro j hj
   rw [grow_slot h hfull j hj, grow_at h hfull j hj]
 
-theorem grow_ping (q : Q) : q.grow.ping = q.ping := rfl
+theorem grow_pings (q : Q) : q.grow.pings = q.pings := rfl
 
 theorem grow_inv {q : Q} (h : Inv q) (hfull : q.count = q.size) : Inv q.grow := by
   have hpos := h.size_pos
@@ -412,7 +409,7 @@ theorem insert_refines {q : Q} (h : Inv q) (mtype pktid : Nat) (bytes : List UIn
     by_cases hf : q.full = true
     · have hfull : q.count = q.size := by simpa [Q.full] using hf
       refine ⟨q.grow, by simp [hf], grow_inv h hfull, ?_, ?_⟩
-      · unfold abs; rw [grow_window h hfull, grow_ping]
+      · unfold abs; rw [grow_window h hfull, grow_pings]
       · rw [grow_count h hfull, grow_eq h hfull]; show q.count < q.size * 2
         have := h.size_pos; omega
     · have hne : q.count ≠ q.size := by simpa [Q.full] using hf
@@ -443,7 +440,7 @@ theorem insert_none_refines {q : Q} (h : Inv q) (mtype pktid : Nat) (tag : Nat) 
   · have hfull : q.count = q.size := by simpa [Q.full] using hf
     simp only [hf, ↓reduceIte]
     have hi := grow_inv h hfull
-    have ha : abs q.grow = abs q := by unfold abs; rw [grow_window h hfull, grow_ping]
+    have ha : abs q.grow = abs q := by unfold abs; rw [grow_window h hfull, grow_pings]
     split <;> exact ⟨hi, ha⟩
   · simp only [hf]
     split <;> exact ⟨h, rfl⟩
@@ -606,7 +603,7 @@ theorem removeHead_refines {q : Q} (h : Inv q) (hne : 0 < q.count) :
     simp only [Function.comp_apply, Nat.succ_eq_add_one]
     rw [hsl, hat' j (by omega)]
 
-theorem removeHead_ping (q : Q) : q.removeHead.ping = q.ping := by
+theorem removeHead_pings (q : Q) : q.removeHead.pings = q.pings := by
   unfold Q.removeHead; split <;> rfl
 
 theorem removeHead_count {q : Q} (hne : 0 < q.count) : q.removeHead.count = q.count - 1 := by
@@ -616,7 +613,7 @@ theorem removeHead_count {q : Q} (hne : 0 < q.count) : q.removeHead.count = q.co
 
 theorem drain_refines (fuel : Nat) {q : Q} (h : Inv q) (hf : q.count ≤ fuel) (acc : List AckMsg) :
     Inv (Q.drain fuel q acc).1 ∧
-    (Q.drain fuel q acc).1.ping = q.ping ∧
+    (Q.drain fuel q acc).1.pings = q.pings ∧
     window (Q.drain fuel q acc).1 = (window q).dropWhile (fun a => terminal a.state) ∧
     (Q.drain fuel q acc).2 = acc ++ (window q).takeWhile (fun a => terminal a.state) := by
   induction fuel generalizing q acc with
@@ -638,7 +635,7 @@ theorem drain_refines (fuel : Nat) {q : Q} (h : Inv q) (hf : q.count ≤ fuel) (
       · simp only [Bool.false_eq_true, ↓reduceIte, ht]
         have := ih hi (by rw [removeHead_count hpos]; omega) (acc ++ [q.get q.head])
         obtain ⟨a, b, c, d⟩ := this
-        refine ⟨a, by rw [b, removeHead_ping], ?_, ?_⟩
+        refine ⟨a, by rw [b, removeHead_pings], ?_, ?_⟩
         · rw [c, hw]
           have : terminal (q.get q.head).state = true := ht
           simp [this]
@@ -652,66 +649,90 @@ theorem drain_refines (fuel : Nat) {q : Q} (h : Inv q) (hf : q.count ≤ fuel) (
         · rw [hw]; simp [this]
         · rw [hw]; simp [this]
 
-/-! ### the ping slot -/
+/-! ### the ping FIFO -/
 
-/-- The ping slot is marked acknowledged only if it holds a ping request. -/
-def PingOk (q : Q) : Prop := q.ping.state = tPINGRESP → q.ping.mtype = tPINGREQ
+/-- Everything in the ping FIFO is a ping request. -/
+def PingsOk (q : Q) : Prop := ∀ a ∈ q.pings, a.mtype = tPINGREQ
 
-theorem insert_ping (q : Q) (mtype pktid : Nat) (enc : Option (List UInt8)) (tag : Nat) :
-    (q.insert mtype pktid enc tag).ping = q.ping := by
+theorem insert_pings (q : Q) (mtype pktid : Nat) (enc : Option (List UInt8)) (tag : Nat) :
+    (q.insert mtype pktid enc tag).pings = q.pings := by
   unfold Q.insert
-  have : (if q.full then q.grow else q).ping = q.ping := by split <;> rfl
+  have : (if q.full then q.grow else q).pings = q.pings := by split <;> rfl
   cases enc <;> simp only <;> split <;> simp [this]
 
-theorem acked_eq (q : Q) : q.acked =
-    if q.ping.state = tPINGRESP then Q.drain q.count { q with ping := AckMsg.zero } [q.ping]
-    else Q.drain q.count q [] := by
-  unfold Q.acked
-  by_cases hs : q.ping.state = tPINGRESP
-  · have hs' : (q.ping.state == tPINGRESP) = true := by simp [hs]
-    rw [if_pos hs]; simp only [hs', ↓reduceIte]
-  · have hs' : (q.ping.state == tPINGRESP) = false := by simp [hs]
-    rw [if_neg hs]; simp only [hs', Bool.false_eq_true, ↓reduceIte]
+/-- the code's "oldest entry without a PINGRESP takes it" loop is the specification's `answerPing` -/
+theorem markPing_refines (bytes : List UInt8) (l : List AckMsg) :
+    (markPing bytes l).map toEntry = Fifo.answerPing bytes (l.map toEntry) := by
+  induction l with
+  | nil => rfl
+  | cons a l ih =>
+    have hs : (toEntry a).state = a.state := rfl
+    simp only [markPing, List.map_cons, Fifo.answerPing, hs]
+    by_cases h : a.state = 13
+    · have h1 : (a.state != tPINGRESP) = false := by simp [h, tPINGRESP]
+      have h2 : (a.state == Fifo.PINGRESP) = true := by simp [h, Fifo.PINGRESP]
+      simp only [h1, h2, Bool.false_eq_true, ↓reduceIte, List.map_cons, ih]
+    · have h1 : (a.state != tPINGRESP) = true := by simp [h, tPINGRESP]
+      have h2 : (a.state == Fifo.PINGRESP) = false := by simp [h, Fifo.PINGRESP]
+      simp only [h1, h2, Bool.false_eq_true, ↓reduceIte, List.map_cons]
+      rfl
 
-theorem acked_refines {q : Q} (h : Inv q) (hp : PingOk q) :
-    Inv q.acked.1 ∧ PingOk q.acked.1 ∧
+theorem markPing_mtype (bytes : List UInt8) (l : List AckMsg) (h : ∀ a ∈ l, a.mtype = tPINGREQ) :
+    ∀ a ∈ markPing bytes l, a.mtype = tPINGREQ := by
+  induction l with
+  | nil => intro a ha; simp [markPing] at ha
+  | cons b l ih =>
+    intro a ha
+    simp only [markPing] at ha
+    split at ha
+    · rcases List.mem_cons.mp ha with rfl | ha'
+      · exact h b (by simp)
+      · exact h a (by simp [ha'])
+    · rcases List.mem_cons.mp ha with rfl | ha'
+      · exact h a (by simp)
+      · exact ih (fun x hx => h x (by simp [hx])) a ha'
+
+theorem map_dropWhile_state (p : Nat → Bool) (l : List AckMsg) :
+    (l.dropWhile (fun a => p a.state)).map toEntry = (l.map toEntry).dropWhile (fun e => p e.state) := by
+  induction l with
+  | nil => rfl
+  | cons a l ih =>
+    simp only [List.dropWhile_cons, List.map_cons]
+    have : (toEntry a).state = a.state := rfl
+    rw [this]; split <;> simp [ih]
+
+theorem map_takeWhile_state (p : Nat → Bool) (l : List AckMsg) :
+    (l.takeWhile (fun a => p a.state)).map toEntry = (l.map toEntry).takeWhile (fun e => p e.state) := by
+  induction l with
+  | nil => rfl
+  | cons a l ih =>
+    simp only [List.takeWhile_cons, List.map_cons]
+    have : (toEntry a).state = a.state := rfl
+    rw [this]; split <;> simp [ih]
+
+theorem acked_refines {q : Q} (h : Inv q) (hp : PingsOk q) :
+    Inv q.acked.1 ∧ PingsOk q.acked.1 ∧
     abs q.acked.1 = ⟨(abs q).q.dropWhile (fun e => terminal e.state),
-                      if q.ping.state = tPINGRESP then none else (abs q).ping⟩ ∧
+                      (abs q).pings.dropWhile (fun e => e.state == Fifo.PINGRESP)⟩ ∧
     q.acked.2.map toEntry =
-      (if q.ping.state = tPINGRESP then [toEntry q.ping] else []) ++
+      (abs q).pings.takeWhile (fun e => e.state == Fifo.PINGRESP) ++
         (abs q).q.takeWhile (fun e => terminal e.state) := by
-  have hdw : ∀ l : List AckMsg, (l.dropWhile (fun a => terminal a.state)).map toEntry =
-      (l.map toEntry).dropWhile (fun e => terminal e.state) := by
-    intro l; induction l with
-    | nil => rfl
-    | cons a l ih =>
-      simp only [List.dropWhile_cons, List.map_cons]
-      have : (toEntry a).state = a.state := rfl
-      rw [this]; split <;> simp [ih]
-  have htw : ∀ l : List AckMsg, (l.takeWhile (fun a => terminal a.state)).map toEntry =
-      (l.map toEntry).takeWhile (fun e => terminal e.state) := by
-    intro l; induction l with
-    | nil => rfl
-    | cons a l ih =>
-      simp only [List.takeWhile_cons, List.map_cons]
-      have : (toEntry a).state = a.state := rfl
-      rw [this]; split <;> simp [ih]
-  rw [acked_eq]
-  by_cases hs : q.ping.state = tPINGRESP
-  · rw [if_pos hs, if_pos hs, if_pos hs]
-    have hq' : Inv { q with ping := AckMsg.zero } :=
-      ⟨h.pow, h.mask, h.len, h.cnt, h.head, h.tail, h.sound, h.compl⟩
-    obtain ⟨a, b, c, d⟩ := drain_refines q.count hq' (Nat.le_refl _) [q.ping]
-    have hw : window { q with ping := AckMsg.zero } = window q := rfl
-    refine ⟨a, ?_, ?_, ?_⟩
-    · unfold PingOk; rw [b]; intro h0; exact absurd (show AckMsg.zero.state = tPINGRESP from h0) (by decide)
-    · unfold abs; rw [c, b, hw, hdw]; simp [absPing, AckMsg.zero, tPINGREQ]
-    · rw [d, hw]; simp [htw, abs]
-  · rw [if_neg hs, if_neg hs, if_neg hs]
-    obtain ⟨a, b, c, d⟩ := drain_refines q.count h (Nat.le_refl _) []
-    refine ⟨a, ?_, ?_, ?_⟩
-    · unfold PingOk; rw [b]; exact hp
-    · unfold abs; rw [c, b, hdw]
-    · rw [d]; simp [htw, abs]
+  have hq' : Inv { q with pings := q.pings.dropWhile (fun a => a.state == tPINGRESP) } :=
+    ⟨h.pow, h.mask, h.len, h.cnt, h.head, h.tail, h.sound, h.compl⟩
+  obtain ⟨a, b, c, d⟩ := drain_refines q.count hq' (Nat.le_refl _)
+    (q.pings.takeWhile (fun a => a.state == tPINGRESP))
+  have hw : window { q with pings := q.pings.dropWhile (fun a => a.state == tPINGRESP) } = window q := rfl
+  have e1 : tPINGRESP = Fifo.PINGRESP := rfl
+  unfold Q.acked
+  refine ⟨a, ?_, ?_, ?_⟩
+  · intro x hx
+    rw [b] at hx
+    exact hp x ((List.dropWhile_sublist _).subset hx)
+  · unfold abs; rw [c, b, hw]
+    rw [map_dropWhile_state (fun t => terminal t), map_dropWhile_state (fun t => t == tPINGRESP), e1]
+  · rw [d, hw]
+    rw [List.map_append, map_takeWhile_state (fun t => terminal t),
+      map_takeWhile_state (fun t => t == tPINGRESP), e1]
+    rfl
 
 end Mqtt.Proofs.AckQueue
